@@ -189,11 +189,12 @@ func (e *env) reopen() error {
 
 type jobs struct {
 	Meas    []string            `json:"meas"`
-	Keys    map[string][]string `json:"keys"`    // per measurement of the universe
-	Vals    map[string][]string `json:"vals"`    // per "m/k"
-	MSeries map[string][]uint64 `json:"mseries"` // per m
-	KSeries map[string][]uint64 `json:"kseries"` // per "m/k"
-	VSeries map[string][]uint64 `json:"vseries"` // per "m/k/v"
+	Keys    map[string][]string `json:"keys"`          // per measurement of the universe
+	Vals    map[string][]string `json:"vals"`          // per "m/k"
+	MSeries map[string][]uint64 `json:"mseries"`       // per m
+	KSeries map[string][]uint64 `json:"kseries"`       // per "m/k"
+	VSeries map[string][]uint64 `json:"vseries"`       // per "m/k/v"
+	Set     []uint64            `json:"series_id_set"` // Index.SeriesIDSet()
 }
 
 func drainBytes(next func() ([]byte, error)) ([]string, error) {
@@ -268,6 +269,12 @@ func observe(idx *tsi1.Index, sfile *tsdb.SeriesFile) (*jobs, error) {
 		if err != nil {
 			return nil, err
 		}
+	}
+	o.Set = []uint64{}
+	idx.SeriesIDSet().ForEach(func(id uint64) { o.Set = append(o.Set, id) })
+	sort.Slice(o.Set, func(i, j int) bool { return o.Set[i] < o.Set[j] })
+	if n := idx.SeriesN(); n != int64(len(o.Set)) {
+		return nil, fmt.Errorf("Index.SeriesN() = %d but Index.SeriesIDSet() has %d ids", n, len(o.Set))
 	}
 	for _, m := range measNames {
 		kitr, err := is.TagKeyIterator([]byte(m))
